@@ -186,3 +186,598 @@ Example C01_matrix_nonvacuous :
   | _ => False
   end.
 Proof. vm_compute. auto. Qed.
+
+(* ==== per-file matrices, per-developer matrices, ownership (C01_files / C01_people / C01_ownership) ==== *)
+(* The proof is the weighted-sum invariant of C01_global_sparse carried by a VIEW (ViewFacts.v .. ViewDag.v): one of
+   the sparse histories kept beside the global one, with the filter that says which tracker reports are booked in it
+   (file p: the reports of the files whose history handle is the one fileHistories holds for p; developer i: the
+   reports whose PREVIOUS value carries author i, so a death is booked against the line's author, not the killer).
+   Invariants added to W of DagProofs.v: fileHistories' names map stays injective and every tracked file of every
+   live branch carries the handle of its path (no path is ever deleted on a conflict-free history); the view is the
+   sum of the kept contributions of the analysed commits; the view is a sub-history of the global history. *)
+From Herc Require Import Burndown.FrameFacts Burndown.ViewFacts Burndown.ViewStep Burndown.ViewDag Burndown.ViewMatrix
+  Burndown.OwnerProofs Burndown.FinalProofs.
+
+(* the sparse history of file p (p0 is its path, behind the handle of fileHistories) and of developer i:
+   births minus deaths of the kept lines, as C01_global_sparse with a filter *)
+Theorem C01_files_sparse : forall h cf aidx plan w p k,
+  conflict_free h = true -> (forall c, 0 <= c < ncommits h -> tick_of h c < mark) ->
+  (forall c, 0 <= znth 0 aidx c) -> c_files cf = true ->
+  plan_okb h plan = true -> run_hist cf h aidx plan = Ok w ->
+  aget (s_names (w_shared w)) p = Some k ->
+  forall P, wsum P (aget_d [] (s_fhs (w_shared w)) k) =
+    sum_z (map (fun c =>
+      (if P (tick_of h c) (tick_of h c)
+       then count (fun pl => keep_path p pl && (l_born (snd pl) =? c)) (all_lines h) else 0)
+      - count (fun pl => keep_path p pl && ((l_killer (snd pl) =? c) && P (tick_of h c) (birth_tick h (snd pl)))) (all_lines h))
+      (zrange (ncommits h))).
+Proof.
+  intros h cf aidx plan w p k Hcf Hm Ha Hf Hok Er En P.
+  pose proof (proj1 (view_sparse h cf aidx Hcf Hm Ha (file_view cf Hf p) (keep_path p) (fun _ _ _ _ _ => eq_refl) eq_refl plan w Hok Er) P) as E.
+  cbn [v_proj file_view] in E. unfold fh_of in E. rewrite En in E. exact E.
+Qed.
+Print Assumptions C01_files_sparse.
+
+Theorem C01_people_sparse : forall h cf aidx plan w i,
+  conflict_free h = true -> (forall c, 0 <= c < ncommits h -> tick_of h c < mark) ->
+  (forall c, 0 <= znth 0 aidx c) -> c_people cf <> 0 -> i <> author_missing ->
+  plan_okb h plan = true -> run_hist cf h aidx plan = Ok w ->
+  forall P, wsum P (aget_d [] (s_phs (w_shared w)) i) =
+    sum_z (map (fun c =>
+      (if P (tick_of h c) (tick_of h c)
+       then count (fun pl => (znth 0 aidx (l_born (snd pl)) =? i) && (l_born (snd pl) =? c)) (all_lines h) else 0)
+      - count (fun pl => (znth 0 aidx (l_born (snd pl)) =? i) &&
+                         ((l_killer (snd pl) =? c) && P (tick_of h c) (birth_tick h (snd pl)))) (all_lines h))
+      (zrange (ncommits h))).
+Proof.
+  intros h cf aidx plan w i Hcf Hm Ha Hp Hi Hok Er P.
+  exact (proj1 (view_sparse h cf aidx Hcf Hm Ha (dev_view cf i Hi) (fun pl => znth 0 aidx (l_born (snd pl)) =? i)
+                  (dev_link2 h cf aidx i Hcf Hm Ha Hp) eq_refl plan w Hok Er) P).
+Qed.
+Print Assumptions C01_people_sparse.
+
+(* C01_files: the dense matrix of the history of path p, grouped with the project's last tick as the code does
+   (rows up to the project's lastTick), IS the ground truth restricted to the lines of p: rows, bands, every cell *)
+Theorem C01_files : forall h cf aidx plan w G S M last p k Mp lp,
+  conflict_free h = true -> (forall c, 0 <= c < ncommits h -> tick_of h c < mark) ->
+  (forall c, 0 <= znth 0 aidx c) -> c_files cf = true ->
+  plan_okb h plan = true -> run_hist cf h aidx plan = Ok w ->
+  1 <= G -> 1 <= S -> group_sparse_history G S (s_gh (w_shared w)) (-1) = Ok (M, last) ->
+  aget (s_names (w_shared w)) p = Some k ->
+  group_sparse_history G S (aget_d [] (s_fhs (w_shared w)) k) last = Ok (Mp, lp) ->
+  Mp = truth_file h G S p /\ lp = last.
+Proof. exact files_matrix. Qed.
+Print Assumptions C01_files.
+
+(* C01_people: the same for developer index i of the people dictionary, i being developer d of the history;
+   births = lines of the commits d authored, deaths booked against the line's author *)
+Theorem C01_people : forall h cf aidx plan w G S M last i d Mi li,
+  conflict_free h = true -> (forall c, 0 <= c < ncommits h -> tick_of h c < mark) ->
+  (forall c, 0 <= znth 0 aidx c) -> c_people cf <> 0 -> i <> author_missing ->
+  (forall c, 0 <= c < ncommits h -> (znth 0 aidx c =? i) = (author_of h c =? d)) ->
+  plan_okb h plan = true -> run_hist cf h aidx plan = Ok w ->
+  1 <= G -> 1 <= S -> group_sparse_history G S (s_gh (w_shared w)) (-1) = Ok (M, last) ->
+  group_sparse_history G S (aget_d [] (s_phs (w_shared w)) i) last = Ok (Mi, li) ->
+  Mi = truth_dev h G S d /\ li = last.
+Proof. exact people_matrix. Qed.
+Print Assumptions C01_people.
+
+(* a developer whose history is empty (Finalize then emits the zero matrix) has the zero ground truth *)
+Theorem C01_people_empty : forall h cf aidx plan w G S i d,
+  conflict_free h = true -> (forall c, 0 <= c < ncommits h -> tick_of h c < mark) ->
+  (forall c, 0 <= znth 0 aidx c) -> c_people cf <> 0 -> i <> author_missing ->
+  (forall c, 0 <= c < ncommits h -> (znth 0 aidx c =? i) = (author_of h c =? d)) ->
+  plan_okb h plan = true -> run_hist cf h aidx plan = Ok w -> 1 <= G -> 1 <= S ->
+  aget_d [] (s_phs (w_shared w)) i = [] ->
+  forall s b, truth_cell h G S (keep_dev h d) s b = 0.
+Proof. exact people_empty. Qed.
+Print Assumptions C01_people_empty.
+
+(* C01_ownership: on a live branch whose last commit descends from every commit (single head), the ownership walk
+   over the file of path p counts per key i the lines of p alive at HEAD whose author has people index i
+   (key -1 for all lines when people tracking is off) *)
+Theorem C01_ownership : forall h cf aidx plan w b lb l0 p seq f,
+  conflict_free h = true -> (forall c, 0 <= c < ncommits h -> tick_of h c < mark) ->
+  (forall c, 0 <= znth 0 aidx c < author_missing) ->
+  single_head h = true -> plan_okb h plan = true -> run_hist cf h aidx plan = Ok w ->
+  aget (w_branches w) b = Some lb -> lb_last lb = Some l0 ->
+  (forall c, 0 <= c < ncommits h -> ancb (ancs h) l0 c = true) ->
+  In (p, seq) (h_paths h) -> aget (b_files (lb_state lb)) p = Some f ->
+  forall i, aget_d 0 (ownership cf (f_vals f) []) i =
+            count (fun pl => keep_path p pl &&
+                             ((if c_people cf =? 0 then -1 else znth 0 aidx (l_born (snd pl))) =? i)) (head_lines h).
+Proof.
+  intros h cf aidx plan w b lb l0 p seq f Hcf Hm Ha.
+  exact (ownership_head h cf aidx Hcf Hm Ha plan w b lb l0 p seq f).
+Qed.
+Print Assumptions C01_ownership.
+
+(* ... in the vocabulary of the oracle truth_ownership: people index i = developer d of the history *)
+Theorem C01_ownership_dev : forall h cf aidx plan w b lb l0 p seq f i d,
+  conflict_free h = true -> (forall c, 0 <= c < ncommits h -> tick_of h c < mark) ->
+  (forall c, 0 <= znth 0 aidx c < author_missing) -> c_people cf <> 0 ->
+  (forall c, 0 <= c < ncommits h -> (znth 0 aidx c =? i) = (author_of h c =? d)) ->
+  single_head h = true -> plan_okb h plan = true -> run_hist cf h aidx plan = Ok w ->
+  aget (w_branches w) b = Some lb -> lb_last lb = Some l0 ->
+  (forall c, 0 <= c < ncommits h -> ancb (ancs h) l0 c = true) ->
+  In (p, seq) (h_paths h) -> aget (b_files (lb_state lb)) p = Some f ->
+  aget_d 0 (ownership cf (f_vals f) []) i = count (fun pl => keep_path p pl && keep_dev h d pl) (head_lines h).
+Proof. exact ownership_dev. Qed.
+Print Assumptions C01_ownership_dev.
+
+(* the branch Finalize reads (getMasterBranch = smallest index) is such a branch when the validated plan leaves
+   every commit on it (master_all, evaluated by the driver on every single-head case) *)
+Theorem C01_master_holds_all : forall h cf aidx plan w b lb,
+  conflict_free h = true -> (forall c, 0 <= c < ncommits h -> tick_of h c < mark) -> (forall c, 0 <= znth 0 aidx c) ->
+  plan_okb h plan = true -> master_all h plan = true -> run_hist cf h aidx plan = Ok w ->
+  master w = Some (b, lb) ->
+  aget (w_branches w) b = Some lb /\
+  exists l0, lb_last lb = Some l0 /\ forall c, 0 <= c < ncommits h -> ancb (ancs h) l0 c = true.
+Proof. exact master_full. Qed.
+Print Assumptions C01_master_holds_all.
+
+(* everything Finalize returns (Analysis.finalize = the dense matrices and ownership tables of burndown.go Finalize) *)
+Theorem C01_finalize : forall h cf aidx plan w b lb l0 G S fin,
+  conflict_free h = true -> single_head h = true ->
+  (forall c, 0 <= c < ncommits h -> tick_of h c < mark) -> (forall c, 0 <= znth 0 aidx c < author_missing) ->
+  c_people cf <= author_missing ->
+  plan_okb h plan = true -> run_hist cf h aidx plan = Ok w -> 1 <= G -> 1 <= S ->
+  aget (w_branches w) b = Some lb -> lb_last lb = Some l0 ->
+  (forall c, 0 <= c < ncommits h -> ancb (ancs h) l0 c = true) ->
+  finalize cf G S (lb_state lb) (w_shared w) = Ok fin ->
+  fin_global fin = truth_project h G S /\
+  (forall p M, In (p, M) (fin_files fin) -> M = truth_file h G S p) /\
+  (forall p tbl seq, In (p, tbl) (fin_owner fin) -> In (p, seq) (h_paths h) ->
+     forall i, aget_d 0 tbl i =
+       count (fun pl => keep_path p pl &&
+                        ((if c_people cf =? 0 then -1 else znth 0 aidx (l_born (snd pl))) =? i)) (head_lines h)) /\
+  (forall j M d, nth_error (fin_people fin) j = Some M ->
+     (forall c, 0 <= c < ncommits h -> (znth 0 aidx c =? Z.of_nat j) = (author_of h c =? d)) ->
+     M = truth_dev h G S d).
+Proof. exact finalize_truth. Qed.
+Print Assumptions C01_finalize.
+
+(* corollaries: no negative cell; with a single head the last row sums to the lines of the file / developer at HEAD *)
+Theorem C01_files_no_negative_cell : forall h cf aidx plan w G S M last p k Mp lp,
+  conflict_free h = true -> (forall c, 0 <= c < ncommits h -> tick_of h c < mark) ->
+  (forall c, 0 <= znth 0 aidx c) -> c_files cf = true ->
+  plan_okb h plan = true -> run_hist cf h aidx plan = Ok w ->
+  1 <= G -> 1 <= S -> group_sparse_history G S (s_gh (w_shared w)) (-1) = Ok (M, last) ->
+  aget (s_names (w_shared w)) p = Some k ->
+  group_sparse_history G S (aget_d [] (s_fhs (w_shared w)) k) last = Ok (Mp, lp) ->
+  forall row, In row Mp -> forall v, In v row -> 0 <= v.
+Proof. exact files_nonneg. Qed.
+Print Assumptions C01_files_no_negative_cell.
+
+Theorem C01_files_last_row_is_head : forall h cf aidx plan w G S M last p k Mp lp,
+  conflict_free h = true -> single_head h = true ->
+  (forall c, 0 <= c < ncommits h -> tick_of h c < mark) -> (forall c, 0 <= znth 0 aidx c) ->
+  c_files cf = true -> plan_okb h plan = true -> run_hist cf h aidx plan = Ok w ->
+  1 <= G -> 1 <= S -> group_sparse_history G S (s_gh (w_shared w)) (-1) = Ok (M, last) ->
+  aget (s_names (w_shared w)) p = Some k ->
+  group_sparse_history G S (aget_d [] (s_fhs (w_shared w)) k) last = Ok (Mp, lp) ->
+  sum_z (nth (Z.to_nat (last / S)) Mp []) = count (keep_path p) (head_lines h).
+Proof. exact files_last_row. Qed.
+Print Assumptions C01_files_last_row_is_head.
+
+Theorem C01_people_no_negative_cell : forall h cf aidx plan w G S M last i d Mi li,
+  conflict_free h = true -> (forall c, 0 <= c < ncommits h -> tick_of h c < mark) ->
+  (forall c, 0 <= znth 0 aidx c) -> c_people cf <> 0 -> i <> author_missing ->
+  (forall c, 0 <= c < ncommits h -> (znth 0 aidx c =? i) = (author_of h c =? d)) ->
+  plan_okb h plan = true -> run_hist cf h aidx plan = Ok w ->
+  1 <= G -> 1 <= S -> group_sparse_history G S (s_gh (w_shared w)) (-1) = Ok (M, last) ->
+  group_sparse_history G S (aget_d [] (s_phs (w_shared w)) i) last = Ok (Mi, li) ->
+  forall row, In row Mi -> forall v, In v row -> 0 <= v.
+Proof. exact people_nonneg. Qed.
+Print Assumptions C01_people_no_negative_cell.
+
+Theorem C01_people_last_row_is_head : forall h cf aidx plan w G S M last i d Mi li,
+  conflict_free h = true -> single_head h = true ->
+  (forall c, 0 <= c < ncommits h -> tick_of h c < mark) -> (forall c, 0 <= znth 0 aidx c) ->
+  c_people cf <> 0 -> i <> author_missing ->
+  (forall c, 0 <= c < ncommits h -> (znth 0 aidx c =? i) = (author_of h c =? d)) ->
+  plan_okb h plan = true -> run_hist cf h aidx plan = Ok w ->
+  1 <= G -> 1 <= S -> group_sparse_history G S (s_gh (w_shared w)) (-1) = Ok (M, last) ->
+  group_sparse_history G S (aget_d [] (s_phs (w_shared w)) i) last = Ok (Mi, li) ->
+  sum_z (nth (Z.to_nat (last / S)) Mi []) = count (keep_dev h d) (head_lines h).
+Proof. exact people_last_row. Qed.
+Print Assumptions C01_people_last_row_is_head.
+
+(* non-vacuity: the diamond of C01_matrix_nonvacuous (two paths, two developers, a merge that adds a line, a line of
+   commit 0 killed on a branch): every hypothesis of C01_finalize / C01_master_holds_all holds and Finalize returns
+   exactly the per-file, per-developer and ownership ground truth *)
+Example C01_files_people_ownership_nonvacuous :
+  conflict_free ex_dag = true /\ single_head ex_dag = true /\ plan_okb ex_dag ex_dag_plan = true /\
+  master_all ex_dag ex_dag_plan = true /\
+  match run_hist (mkCfg 2 true) ex_dag [0; 1; 0; 1] ex_dag_plan with
+  | Ok w =>
+      s_names (w_shared w) = [(0, 0); (1, 1)] /\
+      match master w with
+      | Some (b, lb) =>
+          lb_last lb = Some 3 /\
+          match finalize (mkCfg 2 true) 2 1 (lb_state lb) (w_shared w) with
+          | Ok fin =>
+              fin_files fin = [(0, truth_file ex_dag 2 1 0); (1, truth_file ex_dag 2 1 1)] /\
+              fin_files fin = [(0, [[2; 0]; [3; 0]; [3; 0]; [3; 1]]); (1, [[0; 0]; [1; 0]; [1; 0]; [1; 0]])] /\
+              fin_people fin = [truth_dev ex_dag 2 1 0; truth_dev ex_dag 2 1 1] /\
+              fin_people fin = [[[2; 0]; [3; 0]; [3; 0]; [3; 0]]; [[0; 0]; [1; 0]; [1; 0]; [1; 1]]] /\
+              fin_owner fin = [(0, truth_ownership ex_dag 0 [0; 1]); (1, truth_ownership ex_dag 1 [0; 1])] /\
+              fin_owner fin = [(0, [(0, 2); (1, 2)]); (1, [(0, 1)])]
+          | _ => False
+          end
+      | None => False
+      end
+  | _ => False
+  end.
+Proof. vm_compute. repeat split; reflexivity. Qed.
+
+(* ---- coverage: which matrices exist, Finalize does not fail ---- *)
+(* a path has a non-empty file history (hence a per-file matrix) iff it has at least one line in the history *)
+Theorem C01_files_cover : forall h cf aidx plan w,
+  conflict_free h = true -> (forall c, 0 <= c < ncommits h -> tick_of h c < mark) -> (forall c, 0 <= znth 0 aidx c) ->
+  c_files cf = true -> plan_okb h plan = true -> run_hist cf h aidx plan = Ok w ->
+  forall p, In p (paths_with_lines h) <->
+            exists k, aget (s_names (w_shared w)) p = Some k /\ aget_d [] (s_fhs (w_shared w)) k <> [].
+Proof. exact files_cover. Qed.
+Print Assumptions C01_files_cover.
+
+(* on the domain of the property (conflict-free, at least one line: the complement of F11) Finalize succeeds *)
+Theorem C01_finalize_succeeds : forall h cf aidx plan w G S b,
+  conflict_free h = true -> (forall c, 0 <= c < ncommits h -> tick_of h c < mark) -> (forall c, 0 <= znth 0 aidx c) ->
+  c_people cf <= author_missing -> has_line h = true ->
+  plan_okb h plan = true -> run_hist cf h aidx plan = Ok w -> 1 <= G -> 1 <= S ->
+  exists fin, finalize cf G S b (w_shared w) = Ok fin.
+Proof. exact finalize_succeeds. Qed.
+Print Assumptions C01_finalize_succeeds.
+
+(* what Finalize returns has exactly one per-file matrix and one ownership table per path with a line, and one
+   developer matrix per people index (their contents: C01_finalize) *)
+Theorem C01_finalize_cover : forall h cf aidx plan w b lb l0 G S fin,
+  conflict_free h = true -> (forall c, 0 <= c < ncommits h -> tick_of h c < mark) -> (forall c, 0 <= znth 0 aidx c) ->
+  c_files cf = true -> plan_okb h plan = true -> run_hist cf h aidx plan = Ok w ->
+  aget (w_branches w) b = Some lb -> lb_last lb = Some l0 ->
+  (forall c, 0 <= c < ncommits h -> ancb (ancs h) l0 c = true) ->
+  finalize cf G S (lb_state lb) (w_shared w) = Ok fin ->
+  NoDup (map fst (fin_files fin)) /\
+  (forall p, In p (map fst (fin_files fin)) <-> In p (paths_with_lines h)) /\
+  map fst (fin_owner fin) = map fst (fin_files fin) /\
+  length (fin_people fin) = Z.to_nat (c_people cf).
+Proof. exact finalize_cover. Qed.
+Print Assumptions C01_finalize_cover.
+
+Example C01_cover_nonvacuous :
+  has_line ex_dag = true /\ paths_with_lines ex_dag = [0; 1] /\
+  match run_hist (mkCfg 2 true) ex_dag [0; 1; 0; 1] ex_dag_plan with
+  | Ok w => aget_d [] (s_fhs (w_shared w)) 0 <> [] /\ aget_d [] (s_fhs (w_shared w)) 1 <> []
+  | _ => False
+  end.
+Proof. vm_compute. repeat split; discriminate. Qed.
+
+(* ==== composition with C03/C07/C02 ==== *)
+(* C01's theorems above are about an analysis over ARRAYS, validated by C01's own plan validator [plan_okb].
+   This block discharges, inside Coq, the three cross-property hypotheses listed in docs/C01.md:
+     (a) tracker = array               by the C03 model (File/Model.v: update, new_file) and its theorems,
+     (b) File.Merge = the per-line rule by the C07 model (FileMerge/Model.v: merge_one, stamp_pass, rebuild),
+     (c) the executed plan is valid    by C02's validator (Plan/Checker.v: plan_ok).
+   Vocabulary (theories/Burndown/ComposeFile.v, ComposeMerge.v, ComposePlan.v, Compose.v):
+     tfile = node list of the tree + history handle; flat_file f = its array (C03 flatten);
+     tr_update / tr_new / thm_loop / tr_file_merge = File.Update / NewFile / the loop of handleModification /
+       File.Merge on node lists, the delta records of the C03 / C07 models fed to the updaters of the analysis;
+     rel_res R x y = both runs fail, or both succeed with R-related results;
+     file_rel (f, s) (a, s') = f is a well-formed C03 state with uint32 values, flat_file f = a, s = s';
+     trun = plan execution of the analysis over trackers (tstep, tconsume, tanalysis_merge ...: burndown.go
+       transcribed as in Analysis.v with tfile in the place of the array), Hibernate / Boot = functions hib, boot;
+     w_rel tw w = every tracked file of tw is a well-formed C03 state and flat_world tw = w (same shared histories);
+     graph_of h = the parent lists of h as a C02 commit graph, tr_plan = C02 plan syntax -> C01 plan syntax. *)
+From Coq Require Import Lia.
+From Herc Require Import Burndown.ComposeFile Burndown.ComposeMerge Burndown.ComposePlan Burndown.Compose.
+
+(* ---- (a) the C03 tracker realises the array interface, request by request ---- *)
+(* side conditions: the value is a uint32 below TreeEnd, the new length fits a uint32; the EMPTY request at a
+   position beyond 2^32-1 is excluded (there File.Update panics on its position guard while the array model
+   returns; the analysis never issues it: its only empty request is the deletion of an empty file at position 0) *)
+Theorem C01_tracker_update : forall cf f sh t pos ins del,
+  tf_ok f -> 0 <= t < 4294967295 ->
+  Z.of_nat (length (FS.flatten (tf_nodes f))) + ins <= 4294967295 ->
+  (pos <= 4294967295 \/ ins <> 0 \/ del <> 0) ->
+  rel_res file_rel (tr_update cf f sh t pos ins del) (arr_update cf (flat_file f) sh t pos ins del).
+Proof. exact tr_update_agree. Qed.
+Print Assumptions C01_tracker_update.
+
+Theorem C01_tracker_new_file : forall cf hd sh t n,
+  0 <= t <= 4294967295 -> 0 <= n <= 4294967295 ->
+  rel_res file_rel (tr_new cf hd sh t n)
+    (match update_time cf hd sh t t n with
+     | Ok s2 => Ok (mkFile (repeat t (Z.to_nat n)) hd, s2)
+     | Panic c => Panic c
+     | Err c => Err c
+     end).
+Proof. exact tr_new_agree. Qed.
+Print Assumptions C01_tracker_new_file.
+
+(* the loop of handleModification: any diff script, as long as the lines it may insert fit a uint32 *)
+Theorem C01_tracker_modification : forall cf t, 0 <= t < 4294967295 -> forall diffs pos pending f sh,
+  tf_ok f ->
+  Z.of_nat (length (FS.flatten (tf_nodes f))) + ins_of pending + ins_total diffs <= 4294967295 ->
+  rel_res file_rel (thm_loop cf t diffs pos pending f sh) (hm_loop cf t diffs pos pending (flat_file f) sh).
+Proof. exact thm_loop_agree. Qed.
+Print Assumptions C01_tracker_modification.
+
+(* what the delta records of one valid File.Update do to the observers = what the array model books *)
+Theorem C01_tracker_reports : forall cf hd sh t P ins del s,
+  FS.WF s -> FR.in_range s t P ins del -> (ins <> 0 \/ del <> 0) -> FR.compat_lines s t P del ->
+  feed cf hd sh (FR.upd_reports t P ins del s) =
+  bindr (if 0 <? ins then update_time cf hd sh t t ins else Ok sh)
+        (fun s1 => report_deleted cf hd s1 t (firstn (Z.to_nat del) (skipn (Z.to_nat P) (FS.flatten s)))).
+Proof. exact feed_upd_reports. Qed.
+Print Assumptions C01_tracker_reports.
+
+(* ---- (b) the C07 File.Merge realises the merge rule of the analysis ---- *)
+Theorem C01_tracker_merge : forall cf day f others sh,
+  tf_ok f -> Forall tf_ok others -> 0 <= day <= 4294967295 ->
+  rel_res file_rel (tr_file_merge cf day f others sh)
+                   (file_merge cf day (flat_file f) (map flat_file others) sh).
+Proof. exact tr_file_merge_agree. Qed.
+Print Assumptions C01_tracker_merge.
+
+(* ... which is C07's declarative rule: first copy with the minimal real tick, else the merge day *)
+Theorem C01_merge_is_C07_rule : forall cf day f others s f' s',
+  file_merge cf day f others s = Ok (f', s') ->
+  f_vals f' = MM.spec_lines day (f_vals f) (map f_vals others).
+Proof. exact file_merge_is_C07_rule. Qed.
+Print Assumptions C01_merge_is_C07_rule.
+
+(* the notions that the developments define twice are equal *)
+Theorem C01_same_notions :
+  (forall v, FM.is_mark v = is_mark v) /\ (forall v, MM.mark v = is_mark v) /\
+  (forall ns, FS.WF ns -> MM.flatten ns = FS.flatten ns) /\
+  (forall a o, MM.merge_one a o = merge_lines a o) /\
+  (forall v l, FS.hist v l = count (Z.eqb v) l) /\
+  (forall l, vals_ok l -> Z.of_nat (length l) <= 4294967295 ->
+     FS.WF (MM.rebuild l) /\ FS.flatten (MM.rebuild l) = l).
+Proof.
+  exact (conj is_mark_eq (conj mark_eq (conj flatten_eq (conj merge_one_eq (conj hist_count rebuild_WF))))).
+Qed.
+Print Assumptions C01_same_notions.
+
+(* ---- the whole analysis: over real trackers = over arrays, along ANY plan, with ANY plumbing ---- *)
+Theorem C01_tracker_run : forall cf author_of_commit tick_of_commit changes hib boot,
+  (forall c, 0 <= author_of_commit c <= 262142) ->                 (* people index within 0..AuthorMissing *)
+  (forall c, 0 <= tick_of_commit c < 4294967295) ->
+  (forall last c, changes_fit (changes last c)) ->                 (* line counts fit a uint32 *)
+  (forall b, hib b = b) -> (forall b, boot b = b) ->
+  forall plan,
+  rel_res w_rel (trun cf author_of_commit tick_of_commit changes hib boot plan)
+                (run cf author_of_commit tick_of_commit changes plan).
+Proof. exact trun_agree. Qed.
+Print Assumptions C01_tracker_run.
+
+(* ---- (c) a plan accepted by C02's validator is accepted by C01's ---- *)
+(* the third hypothesis is needed: C02 demands the largest connected component only (C01_plan_coverage_needed) *)
+Theorem C01_plan_validators : forall h p,
+  commits_okb h = true -> PC.plan_ok (graph_of h) p = true ->
+  (forall c, (c < length (h_parents h))%nat -> In c (PS.analysed p)) ->
+  plan_okb h (tr_plan p) = true.
+Proof. exact plan_ok_implies_plan_okb. Qed.
+Print Assumptions C01_plan_validators.
+
+Theorem C01_plan_validators_single_head : forall h p,
+  commits_okb h = true -> single_head h = true -> PC.plan_ok (graph_of h) p = true ->
+  plan_okb h (tr_plan p) = true.
+Proof. exact plan_ok_implies_plan_okb_single_head. Qed.
+Print Assumptions C01_plan_validators_single_head.
+
+Example C01_plan_coverage_needed :
+  commits_okb two_roots = true /\ PC.plan_ok (graph_of two_roots) two_roots_plan = true /\
+  plan_okb two_roots (tr_plan two_roots_plan) = false.
+Proof. exact coverage_needed. Qed.
+
+(* ---- the composed end-to-end theorem ---- *)
+(* Burndown analysis over C03 trackers and C07 merges, executed along a plan accepted by C02's plan_ok, on a
+   conflict-free history: the dense project matrix IS the ground truth.
+   Side conditions: ticks < 16383; people indices within 0..AuthorMissing (values fit a uint32); every path has
+   fewer than 2^31 lines in its history (lengths fit a uint32 at every step); every commit is in the plan.
+   Remaining external hypotheses, each named:
+     Hdiff  (C20 tree diff + C11 file diff)  the changes of a commit are the canonical script of the two line sets,
+     Hticks (C19)                            the tick of a commit is the day recorded in the history,
+     Hauth  (C16)                            the author of a commit is its people index,
+     Hhib   (C09)                            Hibernate / Boot leave the analysis state of a branch unchanged. *)
+Theorem C01_matrix_composed :
+  forall h cf aidx author_of_commit tick_of_commit changes hib boot p tw G S M last,
+  conflict_free h = true ->
+  (forall c, 0 <= c < ncommits h -> tick_of h c < mark) ->
+  (forall c, 0 <= znth 0 aidx c <= 262142) ->
+  (forall pl, In pl (h_paths h) -> 2 * Z.of_nat (length (snd pl)) <= 4294967295) ->
+  forall (Hdiff : forall last c, changes last c = changes_of h (ancs h) last c)
+         (Hticks : forall c, tick_of_commit c = tick_of h c)
+         (Hauth : forall c, author_of_commit c = znth 0 aidx c)
+         (Hhib : (forall b, hib b = b) /\ (forall b, boot b = b)),
+  PC.plan_ok (graph_of h) p = true ->
+  (forall c, (c < length (h_parents h))%nat -> In c (PS.analysed p)) ->
+  trun cf author_of_commit tick_of_commit changes hib boot (tr_plan p) = Ok tw ->
+  1 <= G -> 1 <= S -> group_sparse_history G S (s_gh (tw_shared tw)) (-1) = Ok (M, last) ->
+  M = truth_project h G S /\ last = last_event h.
+Proof.
+  intros h cf aidx author_of_commit tick_of_commit changes hib boot p tw G S M last Hcf Hm Ha Hs Hdiff Hticks Hauth Hhib.
+  exact (matrix_composed h cf aidx author_of_commit tick_of_commit changes hib boot Hcf Hm Ha Hs Hdiff Hticks Hauth Hhib
+           p tw G S M last).
+Qed.
+Print Assumptions C01_matrix_composed.
+
+(* the same with C01's single-head condition in the place of "every commit is in the plan" *)
+Theorem C01_matrix_composed_single_head :
+  forall h cf aidx author_of_commit tick_of_commit changes hib boot p tw G S M last,
+  conflict_free h = true -> single_head h = true ->
+  (forall c, 0 <= c < ncommits h -> tick_of h c < mark) ->
+  (forall c, 0 <= znth 0 aidx c <= 262142) ->
+  (forall pl, In pl (h_paths h) -> 2 * Z.of_nat (length (snd pl)) <= 4294967295) ->
+  forall (Hdiff : forall last c, changes last c = changes_of h (ancs h) last c)
+         (Hticks : forall c, tick_of_commit c = tick_of h c)
+         (Hauth : forall c, author_of_commit c = znth 0 aidx c)
+         (Hhib : (forall b, hib b = b) /\ (forall b, boot b = b)),
+  PC.plan_ok (graph_of h) p = true ->
+  trun cf author_of_commit tick_of_commit changes hib boot (tr_plan p) = Ok tw ->
+  1 <= G -> 1 <= S -> group_sparse_history G S (s_gh (tw_shared tw)) (-1) = Ok (M, last) ->
+  M = truth_project h G S /\ last = last_event h.
+Proof.
+  intros h cf aidx author_of_commit tick_of_commit changes hib boot p tw G S M last Hcf Hsh Hm Ha Hs Hdiff Hticks Hauth Hhib
+         Hp E HG HS Eg.
+  exact (matrix_composed_single_head h cf aidx author_of_commit tick_of_commit changes hib boot Hcf Hm Ha Hs Hdiff Hticks
+           Hauth Hhib p tw G S M last Hp Hsh E HG HS Eg).
+Qed.
+Print Assumptions C01_matrix_composed_single_head.
+
+(* the sparse history itself (the statement of C01_global_sparse) over trackers and a C02 plan *)
+Theorem C01_global_sparse_composed :
+  forall h cf aidx author_of_commit tick_of_commit changes hib boot p tw,
+  conflict_free h = true ->
+  (forall c, 0 <= c < ncommits h -> tick_of h c < mark) ->
+  (forall c, 0 <= znth 0 aidx c <= 262142) ->
+  (forall pl, In pl (h_paths h) -> 2 * Z.of_nat (length (snd pl)) <= 4294967295) ->
+  forall (Hdiff : forall last c, changes last c = changes_of h (ancs h) last c)
+         (Hticks : forall c, tick_of_commit c = tick_of h c)
+         (Hauth : forall c, author_of_commit c = znth 0 aidx c)
+         (Hhib : (forall b, hib b = b) /\ (forall b, boot b = b)),
+  PC.plan_ok (graph_of h) p = true ->
+  (forall c, (c < length (h_parents h))%nat -> In c (PS.analysed p)) ->
+  trun cf author_of_commit tick_of_commit changes hib boot (tr_plan p) = Ok tw ->
+  forall P, wsum P (s_gh (tw_shared tw)) = sum_z (map (contrib h P) (zrange (ncommits h))).
+Proof.
+  intros h cf aidx author_of_commit tick_of_commit changes hib boot p tw Hcf Hm Ha Hs Hdiff Hticks Hauth Hhib.
+  exact (global_sparse_composed h cf aidx author_of_commit tick_of_commit changes hib boot Hcf Hm Ha Hs Hdiff Hticks Hauth
+           Hhib p tw).
+Qed.
+Print Assumptions C01_global_sparse_composed.
+
+(* the model run over arrays succeeds iff the run over trackers does (so "the model run succeeds" of the
+   theorems above the line and "the tracker run succeeds" here are the same hypothesis) *)
+Theorem C01_runs_succeed_together :
+  forall h cf aidx plan,
+  conflict_free h = true ->
+  (forall c, 0 <= c < ncommits h -> tick_of h c < mark) ->
+  (forall c, 0 <= znth 0 aidx c <= 262142) ->
+  (forall pl, In pl (h_paths h) -> 2 * Z.of_nat (length (snd pl)) <= 4294967295) ->
+  (forall tw, trun cf (fun c => znth 0 aidx c) (tick_of h) (changes_of h (ancs h)) (fun b => b) (fun b => b) plan = Ok tw ->
+     run_hist cf h aidx plan = Ok (flat_world tw) /\ tw_ok tw) /\
+  (forall w, run_hist cf h aidx plan = Ok w ->
+     exists tw, trun cf (fun c => znth 0 aidx c) (tick_of h) (changes_of h (ancs h)) (fun b => b) (fun b => b) plan = Ok tw /\
+                flat_world tw = w /\ tw_ok tw).
+Proof.
+  intros h cf aidx plan Hcf Hm Ha Hs. split.
+  - intros tw. apply (trun_is_run_hist h cf aidx _ _ _ _ _ Hcf Hm Ha Hs); unfold diffs_canonical, ticks_are_days,
+      authors_are_indices, hibernation_identity; auto.
+  - intros w. apply (run_hist_is_trun h cf aidx _ _ _ _ _ Hcf Hm Ha Hs); unfold diffs_canonical, ticks_are_days,
+      authors_are_indices, hibernation_identity; auto.
+Qed.
+Print Assumptions C01_runs_succeed_together.
+
+(* non-vacuity: the diamond ex_dag over real trackers along the C02 plan of props/C02.v (C02_accepts_diamond):
+   every hypothesis of C01_matrix_composed holds, the run succeeds, the matrix is the ground truth, and the
+   surviving branch holds the two files as C03 node lists (values = tick + author * 2^14) *)
+Example C01_matrix_composed_nonvacuous :
+  conflict_free ex_dag = true /\ PC.plan_ok (graph_of ex_dag) diamond_plan02 = true /\
+  tr_plan diamond_plan02 = ex_dag_plan /\
+  (forall c, (c < length (h_parents ex_dag))%nat -> In c (PS.analysed diamond_plan02)) /\
+  (forall pl, In pl (h_paths ex_dag) -> 2 * Z.of_nat (length (snd pl)) <= 4294967295) /\
+  match trun (mkCfg 2 true) (fun c => znth 0 [0; 1; 0; 1] c) (tick_of ex_dag) (changes_of ex_dag (ancs ex_dag))
+             (fun b => b) (fun b => b) (tr_plan diamond_plan02) with
+  | Ok tw => group_sparse_history 2 1 (s_gh (tw_shared tw)) (-1) = Ok (truth_project ex_dag 2 1, 3) /\
+             map (fun kb => map (fun kf => tf_nodes (snd kf)) (tb_files (tlb_state (snd kb)))) (tw_branches tw)
+             = [[[(0, 0); (1, 16385); (2, 16387); (3, 1); (4, 4294967295)]; [(0, 1); (1, 4294967295)]]]
+  | _ => False
+  end.
+Proof.
+  split; [vm_compute; reflexivity|]. split; [vm_compute; reflexivity|]. split; [vm_compute; reflexivity|].
+  split; [exact ex_all_planned|]. split; [exact ex_sizes_ok|]. vm_compute. split; reflexivity.
+Qed.
+
+(* ---- C01_linear over real trackers: arbitrary edit scripts on one branch ---- *)
+(* lin_fits: people indices within 0..AuthorMissing, ticks uint32, line counts of every change fit a uint32 *)
+Theorem C01_linear_composed : forall cf G S cs tb s M last,
+  1 <= S -> 1 <= G -> lin_wf 0 [] cs = true ->
+  Forall (fun c => 0 <= lc_author c <= 262142 /\ 0 <= lc_tick c < 4294967295 /\ changes_fit (lc_changes c)) cs ->
+  tlin_run cf cs tbranch0 shared0 = Ok (tb, s) ->
+  group_sparse_history G S (s_gh s) (-1) = Ok (M, last) ->
+  forall sidx, 0 <= sidx <= last / S ->
+    (forall bidx, 0 <= bidx <= last / G -> 0 <= cell M sidx bidx) /\
+    (forall pre suf, cs = pre ++ suf ->
+       (forall c, In c pre -> lc_tick c <= sample_end S sidx) ->
+       (forall c, In c suf -> sample_end S sidx < lc_tick c) ->
+       sum_z (map (cell M sidx) (zrange (last / G + 1))) = stotal (snap_run pre [])).
+Proof. exact linear_composed. Qed.
+Print Assumptions C01_linear_composed.
+
+Example C01_linear_composed_nonvacuous :
+  lin_wf 0 [] ex_lin = true /\
+  Forall (fun c => 0 <= lc_author c <= 262142 /\ 0 <= lc_tick c < 4294967295 /\ changes_fit (lc_changes c)) ex_lin /\
+  match tlin_run (mkCfg 0 false) ex_lin tbranch0 shared0 with
+  | Ok (tb, s) => group_sparse_history 2 2 (s_gh s) (-1) = Ok ([[3; 0; 0]; [2; 3; 0]; [0; 0; 4]], 5) /\
+                  map (fun kf => tf_nodes (snd kf)) (tb_files tb) = [[(0, 5); (4, 4294967295)]]
+  | _ => False
+  end.
+Proof.
+  split; [vm_compute; reflexivity|]. split.
+  - unfold ex_lin, changes_fit. repeat (apply Forall_cons || apply Forall_nil); cbn [lc_author lc_tick lc_changes];
+      (split; [lia|split; [lia|]]); repeat (apply Forall_cons || apply Forall_nil);
+      vm_compute; repeat split; discriminate.
+  - vm_compute. split; reflexivity.
+Qed.
+
+(* ---- the per-file and per-developer matrices (C01_files, C01_people above) over trackers and a C02 plan ---- *)
+(* the shared histories of the tracker run ARE those of the array run (C01_tracker_run), so every theorem above
+   about w_shared transfers; spelled out for the two dense matrices *)
+Theorem C01_files_composed :
+  forall h cf aidx author_of_commit tick_of_commit changes hib boot p tw G S M last path k Mp lp,
+  conflict_free h = true ->
+  (forall c, 0 <= c < ncommits h -> tick_of h c < mark) ->
+  (forall c, 0 <= znth 0 aidx c <= 262142) ->
+  (forall pl, In pl (h_paths h) -> 2 * Z.of_nat (length (snd pl)) <= 4294967295) ->
+  forall (Hdiff : forall last c, changes last c = changes_of h (ancs h) last c)
+         (Hticks : forall c, tick_of_commit c = tick_of h c)
+         (Hauth : forall c, author_of_commit c = znth 0 aidx c)
+         (Hhib : (forall b, hib b = b) /\ (forall b, boot b = b)),
+  c_files cf = true ->
+  PC.plan_ok (graph_of h) p = true ->
+  (forall c, (c < length (h_parents h))%nat -> In c (PS.analysed p)) ->
+  trun cf author_of_commit tick_of_commit changes hib boot (tr_plan p) = Ok tw ->
+  1 <= G -> 1 <= S -> group_sparse_history G S (s_gh (tw_shared tw)) (-1) = Ok (M, last) ->
+  aget (s_names (tw_shared tw)) path = Some k ->
+  group_sparse_history G S (aget_d [] (s_fhs (tw_shared tw)) k) last = Ok (Mp, lp) ->
+  Mp = truth_file h G S path /\ lp = last.
+Proof.
+  intros h cf aidx author_of_commit tick_of_commit changes hib boot p tw G S M last path k Mp lp
+         Hcf Hm Ha Hs Hdiff Hticks Hauth Hhib Hf Hp Hall E HG HS Eg En Ef.
+  destruct (trun_is_run_hist h cf aidx author_of_commit tick_of_commit changes hib boot Hcf Hm Ha Hs Hdiff Hticks Hauth Hhib
+              (tr_plan p) tw E) as [Er _].
+  exact (C01_files h cf aidx (tr_plan p) (flat_world tw) G S M last path k Mp lp Hcf Hm (fun c => proj1 (Ha c)) Hf
+           (plan_ok_implies_plan_okb h p (proj1 (cf_parts h Hcf)) Hp Hall) Er HG HS Eg En Ef).
+Qed.
+Print Assumptions C01_files_composed.
+
+Theorem C01_people_composed :
+  forall h cf aidx author_of_commit tick_of_commit changes hib boot p tw G S M last i d Mi li,
+  conflict_free h = true ->
+  (forall c, 0 <= c < ncommits h -> tick_of h c < mark) ->
+  (forall c, 0 <= znth 0 aidx c <= 262142) ->
+  (forall pl, In pl (h_paths h) -> 2 * Z.of_nat (length (snd pl)) <= 4294967295) ->
+  forall (Hdiff : forall last c, changes last c = changes_of h (ancs h) last c)
+         (Hticks : forall c, tick_of_commit c = tick_of h c)
+         (Hauth : forall c, author_of_commit c = znth 0 aidx c)
+         (Hhib : (forall b, hib b = b) /\ (forall b, boot b = b)),
+  c_people cf <> 0 -> i <> author_missing ->
+  (forall c, 0 <= c < ncommits h -> (znth 0 aidx c =? i) = (author_of h c =? d)) ->
+  PC.plan_ok (graph_of h) p = true ->
+  (forall c, (c < length (h_parents h))%nat -> In c (PS.analysed p)) ->
+  trun cf author_of_commit tick_of_commit changes hib boot (tr_plan p) = Ok tw ->
+  1 <= G -> 1 <= S -> group_sparse_history G S (s_gh (tw_shared tw)) (-1) = Ok (M, last) ->
+  group_sparse_history G S (aget_d [] (s_phs (tw_shared tw)) i) last = Ok (Mi, li) ->
+  Mi = truth_dev h G S d /\ li = last.
+Proof.
+  intros h cf aidx author_of_commit tick_of_commit changes hib boot p tw G S M last i d Mi li
+         Hcf Hm Ha Hs Hdiff Hticks Hauth Hhib Hpe Hi Hid Hp Hall E HG HS Eg Ei.
+  destruct (trun_is_run_hist h cf aidx author_of_commit tick_of_commit changes hib boot Hcf Hm Ha Hs Hdiff Hticks Hauth Hhib
+              (tr_plan p) tw E) as [Er _].
+  exact (C01_people h cf aidx (tr_plan p) (flat_world tw) G S M last i d Mi li Hcf Hm (fun c => proj1 (Ha c)) Hpe Hi Hid
+           (plan_ok_implies_plan_okb h p (proj1 (cf_parts h Hcf)) Hp Hall) Er HG HS Eg Ei).
+Qed.
+Print Assumptions C01_people_composed.
